@@ -6,7 +6,9 @@
     - [bytes_ok b] (every element of the input is in 0..255, which `&[u8]` guarantees) where the Rust
       body uses `&`/`|` on bytes and the hand model uses the comparison / arithmetic form;
     - [blen id = SRTLA_ID_LEN] (the Rust type `&[u8; SRTLA_ID_LEN]`) for the REG builders;
-    - [length info = 6] (the six fields of `ConnectionInfo`) for the extended keepalive builder.
+    - [length info = 6] (the six fields of `ConnectionInfo`) for the extended keepalive builder;
+    - [blen b + 4 < two64] (a Rust slice is shorter than 2^63) for the `while` loop of parse_srtla_ack,
+      whose index arithmetic the translation checks for overflow.
     The proofs do not depend on the shape of the generated terms: both sides are unfolded, every
     [get b i] is split into its outcomes (out-of-range outcomes are discharged from the length guards
     in force when they are provably impossible, and otherwise must agree on both sides), every
@@ -201,6 +203,43 @@ Proof. wire_auto. Qed.
 Lemma leaf_wire_extract_keepalive_conn_info_ok b :
   Wire.extract_keepalive_conn_info b = leaf_wire_extract_keepalive_conn_info b.
 Proof. wire_auto. Qed.
+
+(** `while` loop of parse_srtla_ack: the translation is a fuelled Fixpoint over the locals the body assigns
+    (declaration order: out, i) with the same fuel as the hand model; index arithmetic on `i` is checked
+    (overflow = panic), which the length bound of the hypothesis rules out (a Rust slice is shorter than
+    2^63). *)
+Definition res_map {A B} (f : A -> B) (r : res A) : res B :=
+  match r with Ok a => Ok (f a) | Oob => Oob | Fuel => Fuel end.
+
+Lemma leaf_wire_parse_srtla_ack_loop_ok fuel : forall b i out,
+  0 <= i <= blen b -> blen b + 4 < two64 ->
+  res_map fst (leaf_wire_parse_srtla_ack_loop1 fuel b out i) = Wire.ack_loop fuel b i out.
+Proof.
+  induction fuel as [|fuel IH]; intros b i out Hi Hb; [reflexivity|].
+  unfold two64 in *.
+  cbn [leaf_wire_parse_srtla_ack_loop1 Wire.ack_loop].
+  cbv beta zeta delta [bind Wire.be32_at two64 res_map].
+  repeat wire_step.
+  all: first [ wire_close
+             | rewrite <- IH by (unfold two64; lia); reflexivity
+             | rewrite <- IH by (unfold two64; lia); unfold res_map;
+               repeat match goal with |- context [leaf_wire_parse_srtla_ack_loop1 ?f ?b ?o ?j] =>
+                        replace j with (i + 4) by lia end; reflexivity ].
+Qed.
+
+Lemma leaf_wire_parse_srtla_ack_ok b :
+  blen b + 4 < two64 -> Wire.parse_srtla_ack b = leaf_wire_parse_srtla_ack b.
+Proof.
+  intros Hb.
+  cbv beta zeta delta [Wire.parse_srtla_ack leaf_wire_parse_srtla_ack].
+  wire_unfold.
+  repeat wire_step.
+  all: try (rewrite <- (leaf_wire_parse_srtla_ack_loop_ok (S (length b)) b) by (unfold two64 in *; lia);
+            unfold res_map;
+            match goal with |- context [leaf_wire_parse_srtla_ack_loop1 ?f ?b ?o ?j] =>
+              destruct (leaf_wire_parse_srtla_ack_loop1 f b o j) as [[? ?]| |] end).
+  all: wire_close.
+Qed.
 
 (** ---- builders.rs ----
     The hand-written builders are plain list functions (they cannot fail); the translation is in the
